@@ -1020,4 +1020,10 @@ def run(facts, tier, ctx):
     # a parsed stream re-serialises to its bytes only if the is-last flags of the metadata chain are what the writer emits:
     # nothing may install metadata blocks behind add_metadata_block (C02 LASTFLAG)
     out += c02.last_flag(facts)
+    # what a parsed frame decodes to must not depend on what the thread decoded before (C10's history rules see every
+    # reusable storage of the crate, the decoder's included), and reading back a frame the writer can emit must not hit an
+    # arithmetic assertion (C16 IMPLICIT over the stream parser)
+    from . import c10, c16
+    out += [r for r in c10.run(facts, tier, ctx) if r.rule in ("RESET", "STALE-READ", "PLAIN-STATE")]
+    out += [r for r in c16.run(facts, tier, ctx) if r.rule == "IMPLICIT"]
     return out
